@@ -223,6 +223,71 @@ fn g_dtdjunk(rng: &mut Rng, n: usize) -> Vec<Case> {
     out
 }
 
+/// Ignored declarations of the internal subset (ELEMENT / ATTLIST / NOTATION, external and
+/// parameter entities) whose literals contain quotes, `>`-free junk and the other quote character,
+/// followed by comments and PIs that must become children of the root node (C03).
+fn g_dtdlit(_rng: &mut Rng, _n: usize) -> Vec<Case> {
+    let decls = [
+        "<!NOTATION n SYSTEM \"it's\">", "<!NOTATION n PUBLIC \"-//O'Neil//EN\">", "<!NOTATION n SYSTEM 'say \"hi\"'>",
+        "<!ATTLIST a b CDATA \"x'y\">", "<!ATTLIST a b CDATA 'x\"y'>", "<!ELEMENT a (#PCDATA)>", "<!ELEMENT a ANY>",
+        "<!ENTITY x SYSTEM \"it's\">", "<!ENTITY % p \"it's\">", "<!ENTITY unused \"it's\">", "<!ENTITY u2 'a\"b'>",
+        "<!ATTLIST a b (x|y) \"x\" c CDATA #IMPLIED>", "<!NOTATION n SYSTEM \"a'b'c\">",
+    ];
+    let tails = [
+        "<!-- don't drop me --><?keep me?>", "<?pi it's?><!--c-->", "<!--a--><!--b'--><?p?>", "<!-- \" --><?q \"?>",
+        "", "<!--only-->",
+    ];
+    let mut out = Vec::new();
+    for d in decls {
+        for t in tails {
+            for d2 in ["", decls[0], decls[3]] {
+                out.push(case(true, format!("<!DOCTYPE a [{}{}{}]><a/>", d, t, d2)));
+                out.push(case(true, format!("<!DOCTYPE a [\n {} \n {} {}\n]>\n<a>x</a><!--e-->", d, t, d2)));
+            }
+        }
+    }
+    out
+}
+
+/// CDATA sections over every string of line-end characters and a letter up to length 4, alone
+/// and next to text (C04: CR LF and CR become LF, nothing else changes, nothing is dropped).
+fn g_cdatalines(_rng: &mut Rng, n: usize) -> Vec<Case> {
+    let mut out = Vec::new();
+    for m in crate::gen::enum_strings(n.max(1).min(5), &["\n", "\r", "x", "\r\n"]) {
+        out.push(case(false, format!("<a><![CDATA[{}]]></a>", m)));
+        out.push(case(false, format!("<a>t<![CDATA[{}]]>u</a>", m)));
+        out.push(case(false, format!("<a>\r<![CDATA[{}]]>\n</a>", m)));
+    }
+    out
+}
+
+/// Entity names over the Name production beyond ASCII: ASCII then non-ASCII characters, non-ASCII
+/// first, NameChars that are not NameStartChars inside (C07: a reference behaves as its replacement
+/// text whatever the entity is called).
+fn g_entnames(_rng: &mut Rng, _n: usize) -> Vec<Case> {
+    let names = ["caf\u{e9}", "na\u{ef}ve", "o\u{4e2d}", "in\u{b7}ner", "\u{e9}a", "\u{4e2d}\u{6587}", "a-b.c", "_x1", "a\u{10400}", ":c", "a:b"];
+    let mut out = Vec::new();
+    for nm in names {
+        let dtd = format!("<!DOCTYPE r [<!ENTITY {} 'x<b/>y'><!ENTITY t{} 'val'>]>", nm, nm);
+        out.push(case(true, format!("{}<r>a&{};c</r>", dtd, nm)));
+        out.push(case(true, format!("{}<r k='p&t{};q'>&t{};</r>", dtd, nm, nm)));
+        out.push(case(true, format!("{}<r>&{};&{};</r>", dtd, nm, nm)));
+    }
+    out
+}
+
+/// Attributes whose name length / `=` padding are at the edges of the 16-bit and 8-bit length
+/// fields (C13: `range_qname` / `range_value` are exact within the documented limits; C10: total).
+fn g_longattr(_rng: &mut Rng, _n: usize) -> Vec<Case> {
+    let mut out = Vec::new();
+    for (nl, pad) in [(65279usize, 127usize), (65280, 127), (65300, 100), (65400, 60), (65533, 0), (65534, 0), (65535, 0), (65000, 127), (300, 127), (300, 128)] {
+        let name = "a".repeat(nl);
+        let sp = " ".repeat(pad);
+        out.push(case(false, format!("<r {}{}={}'v' b='w'/>", name, sp, sp)));
+    }
+    out
+}
+
 /// Text and attribute values as piece sequences in every order and adjacency (C04 / C05),
 /// at first / middle / last position among siblings.
 fn g_pieces2(_rng: &mut Rng, n: usize, attr: bool) -> Vec<Case> {
@@ -284,6 +349,10 @@ pub fn gen(name: &str, rng: &mut Rng, n: usize, _args: &[String]) -> Vec<Case> {
         "entity-boundary" => g_entity_boundary(rng, n),
         "exotic" => g_exotic(rng, n),
         "dtdjunk" => g_dtdjunk(rng, n),
+        "dtdlit" => g_dtdlit(rng, n),
+        "cdatalines" => g_cdatalines(rng, n),
+        "entnames" => g_entnames(rng, n),
+        "longattr" => g_longattr(rng, n),
         "pieces2-text" => g_pieces2(rng, n, false),
         "pieces2-attr" => g_pieces2(rng, n, true),
         "ns" => g_ns(rng, n),
@@ -958,6 +1027,21 @@ fn cmd_repeat() {
         .iter()
         .map(|(_, dtd, limit, t)| guarded(|| result_str(&Document::parse_with_options(t, opts(*dtd, *limit)))))
         .collect();
+    // extreme documents in between: nothing they leave behind (caches, statistics, thread-locals)
+    // may influence a later parse
+    let probes: Vec<(String, bool, u32)> = vec![
+        (format!("<!DOCTYPE r [<!ENTITY a '{}'>]><r>{}</r>", "<p/>".repeat(8), "&a;".repeat(40)), true, u32::MAX),
+        (format!("<r {}/>", (0..200).map(|i| format!("a{}=''", i)).collect::<Vec<_>>().join(" ")), false, u32::MAX),
+        (String::new(), false, u32::MAX),
+        ("<r/>".to_string(), false, 0),
+        ("<r/>".to_string(), false, 1),
+        (format!("{}{}", "<a>".repeat(2000), "</a>".repeat(2000)), false, u32::MAX),
+        (format!("<!DOCTYPE r [<!ENTITY a '{}'>]><r b='{}'/>", "x".repeat(3), "&a;".repeat(200)), true, u32::MAX),
+        ("\u{feff}<r>\n\n\n</r>".to_string(), false, u32::MAX),
+    ];
+    for (t, dtd, limit) in &probes {
+        let _ = guarded(|| result_str(&Document::parse_with_options(t, opts(*dtd, *limit))));
+    }
     // reversed order, then each twice in a row
     for pass in 0..2 {
         let order: Vec<usize> = if pass == 0 { (0..cases.len()).rev().collect() } else { (0..cases.len()).collect() };
@@ -1184,6 +1268,66 @@ fn cmd_ord(seed: u64) {
         // get_node(id()) == node, for every sampled node
         let rt = nodes.iter().all(|(_, n)| n.document().get_node(n.id()) == Some(*n));
         writeln!(out, "ORD roundtrip {}", rt as u8).unwrap();
+        // identity of nodes handed out by every way of stepping through the iterators: the id must be
+        // the node's own (get_node(id) gives the same node back, same hash), whatever was consumed before
+        let mut fails: Vec<String> = Vec::new();
+        for d in all.iter() {
+            let reference: Vec<Node> = d.descendants().collect();
+            let check = |what: &str, got: Vec<Node>, want: Vec<usize>, fails: &mut Vec<String>| {
+                if got.len() != want.len() {
+                    fails.push(format!("{}: {} nodes, expected {}", what, got.len(), want.len()));
+                    return;
+                }
+                for (n, w) in got.iter().zip(want.iter()) {
+                    let r = reference[*w];
+                    if n.id() != r.id() || *n != r || h(n) != h(&r) || d.get_node(n.id()) != Some(*n) {
+                        fails.push(format!("{}: node at position {} has id {} (expected {})", what, w, n.id().get(), r.id().get()));
+                        return;
+                    }
+                }
+            };
+            let len = reference.len();
+            check("descendants().step_by(2)", d.descendants().step_by(2).collect(), (0..len).step_by(2).collect(), &mut fails);
+            check("descendants().step_by(3)", d.descendants().step_by(3).collect(), (0..len).step_by(3).collect(), &mut fails);
+            check("descendants().rev()", d.descendants().rev().collect(), (0..len).rev().collect(), &mut fails);
+            let mut it = d.descendants();
+            let mut got = Vec::new();
+            let mut want = Vec::new();
+            let mut pos = 0usize;
+            for k in [1usize, 0, 2, 1, 3] {
+                if let Some(n) = it.nth(k) {
+                    got.push(n);
+                    want.push(pos + k);
+                }
+                pos += k + 1;
+            }
+            check("descendants() nth, nth, ...", got, want, &mut fails);
+            let mut it = d.descendants();
+            let mut got = Vec::new();
+            let mut want = Vec::new();
+            if let (Some(a), Some(b)) = (it.next(), it.nth_back(0)) {
+                got.push(a);
+                got.push(b);
+                want.push(0);
+                want.push(len - 1);
+                if let Some(c) = it.nth(1) {
+                    got.push(c);
+                    want.push(2);
+                }
+            }
+            check("descendants() next, nth_back, nth", got, want, &mut fails);
+            let root = d.root();
+            let kids: Vec<Node> = root.children().collect();
+            let via_sib: Vec<Node> = root.first_child().map(|f| f.next_siblings().collect()).unwrap_or_default();
+            if kids != via_sib {
+                fails.push("children() and first_child().next_siblings() differ".into());
+            }
+        }
+        if fails.is_empty() {
+            writeln!(out, "ORDX ok").unwrap();
+        } else {
+            writeln!(out, "ORDX FAIL {}", fails[..fails.len().min(3)].join("; ")).unwrap();
+        }
         writeln!(out, "END {}", id).unwrap();
     }
 }
@@ -1223,6 +1367,10 @@ fn cmd_scale(args: &[String]) {
                     "longname-3" => (format!("<r a{}='v' b='w'/>", "\u{4e2d}".repeat(n)), false),
                     "longname-4" => (format!("<r {}='v' b='w'/>", "\u{10400}".repeat(n)), false),
                     "longeq" => (format!("<r \u{e9}a{}={}'v' b='w'/>", " ".repeat(n), " ".repeat(n)), false),
+                    // name length + '=' padding + 1 beyond 65535 although each is within its own field
+                    "longname-edge" => (format!("<r {}{}={}'v' b='w'/>", "a".repeat(n), " ".repeat(100), " ".repeat(100)), false),
+                    // text_pos_at with offsets far beyond the end: must return at once (clamped)
+                    "tp-huge" => ("\u{feff}<r>\n\u{20ac}x\n</r>".to_string(), false),
                     _ => (String::new(), false),
                 };
                 let t0 = std::time::Instant::now();
@@ -1244,8 +1392,13 @@ fn cmd_scale(args: &[String]) {
                         acc += doc.root_element().children().rev().count();
                         acc += doc.descendants().rev().count();
                         acc += last.prev_siblings().count() + doc.root().first_children().count() + doc.root().last_children().count();
-                        for p in [0, 1, text.len() / 2, text.len() / 2 + 1, text.len(), text.len() + 2] {
+                        for p in [0, 1, 2, 3, 4, text.len() / 2, text.len() / 2 + 1, text.len(), text.len() + 2, text.len() + 1_000_000] {
                             acc += doc.text_pos_at(p).row as usize;
+                        }
+                        if fam == "tp-huge" {
+                            for p in [1usize << 40, usize::MAX / 2, usize::MAX - 1, usize::MAX] {
+                                acc += doc.text_pos_at(p).row as usize;
+                            }
                         }
                         acc += last.parent_element().map(|_| 1).unwrap_or(0);
                         acc += doc.root_element().attributes().count() + doc.root_element().namespaces().count();
